@@ -76,3 +76,30 @@ Proof.
            (conj pinned_refused_unchanged_refuted pinned_requests_answered_refuted)).
 Qed.
 Print Assumptions pinned_refuted.
+
+(* several configured packages (fresh wrappers of shared raw packages), ops interleaved in any
+   order: a read on a wrapper yields the attribute of ITS raw package under ITS current USE set *)
+Theorem multi_reads_current : forall (V : Type) (Er : N -> N -> list N -> V)
+    (locked : list N) (cfgs : list (N * list N)) (ops : list (nat * op))
+    (w : nat) (a : N) (raw : N) (s : st V),
+  let ws := mrun V Er ops (minit V locked cfgs) in
+  nth_error ws w = Some (raw, s) ->
+  fst (mstep_at V Er w (Read a) ws) = Some (RV (Er raw a (current_use s))).
+Proof. exact multi_reads_current_proof. Qed.
+Print Assumptions multi_reads_current.
+
+(* an op addressed to one wrapper leaves every other wrapper as it was *)
+Theorem multi_isolated : forall (V : Type) (Er : N -> N -> list N -> V)
+    (ws : list (wst V)) (w w' : nat) (o : op),
+  w' <> w -> nth_error (snd (mstep_at V Er w o ws)) w' = nth_error ws w'.
+Proof. exact multi_isolated_proof. Qed.
+Print Assumptions multi_isolated.
+
+Theorem multi_refused_unchanged : forall (V : Type) (Er : N -> N -> list N -> V)
+    (ws : list (wst V)) (w : nat) (o : op) (raw : N) (s : st V),
+  nth_error ws w = Some (raw, s) -> is_request o ->
+  fst (mstep_at V Er w o ws) = Some (RB false) ->
+  exists s', nth_error (snd (mstep_at V Er w o ws)) w = Some (raw, s')
+             /\ same_set (current_use s') (current_use s).
+Proof. exact multi_refused_unchanged_proof. Qed.
+Print Assumptions multi_refused_unchanged.
